@@ -9,7 +9,10 @@
 (* The module is (i) the arithmetic oracle (sizes, counts, offsets), (ii) a model of the writer's   *)
 (* string interning, (iii) a writer / reader machine whose four access paths compute record         *)
 (* positions differently, (iv) the key lookup structures.  Where the code knowingly deviates from   *)
-(* the ideal the deviation is a named action (W_HeaderFieldsLen, K_BuildIgnoringInt32).             *)
+(* the code once deviated from the ideal the deviation is kept as a named action                    *)
+(* (W_HeaderFieldsLen, W_InternTopLevelOnly: writer before c1c40a9; K_BuildIgnoringInt32: key index  *)
+(* before a6663f8).  The as-coded behaviour since those commits is the ideal one (W_Header,          *)
+(* W_Intern, K_Build); the deviations stay in the model so that TLC keeps showing what they break.   *)
 EXTENDS Integers, Sequences, SequencesExt, FiniteSets, TLC
 
 \* ---- field types --------------------------------------------------------------------------------
@@ -83,8 +86,8 @@ StringFields == {di \in 1..Len(vsch) : vsch[di].ty = "String"}
 AllRefs == FoldLeft(LAMBDA dacc, drec : dacc \o FoldLeft(LAMBDA dacc2, di : IF di \in StringFields THEN dacc2 \o drec[di] ELSE dacc2,
                                                          <<>>, [dj \in 1..Len(vsch) |-> dj]),
                     <<>>, vrecs)
-\* writer.rs build_string_block looks at top-level StringRef values only: elements of array fields
-\* are not visited
+\* writer.rs build_string_block before c1c40a9 looked at top-level StringRef values only: elements of
+\* array fields were not visited
 TopLevelRefs == FoldLeft(LAMBDA dacc, drec : dacc \o FoldLeft(LAMBDA dacc2, di : IF di \in StringFields /\ vsch[di].arr = 0 THEN dacc2 \o drec[di] ELSE dacc2,
                                                               <<>>, [dj \in 1..Len(vsch) |-> dj]),
                          <<>>, vrecs)
@@ -98,7 +101,7 @@ DStart(dsch, dkey, drecs, dlen) ==
 W_Intern == /\ vpc = "intern" /\ vpc' = "header"
             /\ vblock' = Intern(AllRefs)
             /\ UNCHANGED <<vsch, vkey, vrecs, vlen, vhdr, vout, vrefs, vdev, vread, vkmap>>
-\* named deviation: strings inside array fields are not interned (they will be written as offset 0)
+\* named deviation (writer before c1c40a9): strings inside array fields are not interned (written as offset 0)
 W_InternTopLevelOnly == /\ vpc = "intern" /\ vpc' = "header"
                         /\ \E di \in StringFields : vsch[di].arr > 0
                         /\ vblock' = Intern(TopLevelRefs)
@@ -108,7 +111,7 @@ W_Header == /\ vpc = "header" /\ vpc' = "records"
             /\ vhdr' = [n |-> NRec, fc |-> FieldCount(vsch), rs |-> RecordSize(vsch), sb |-> BlockSize(vblock, vlen)]
             /\ vout' = HEADER
             /\ UNCHANGED <<vsch, vkey, vrecs, vlen, vblock, vrefs, vdev, vread, vkmap>>
-\* named deviation: the code stores schema.fields.len()
+\* named deviation (writer before c1c40a9): the header stores schema.fields.len()
 W_HeaderFieldsLen == /\ vpc = "header" /\ vpc' = "records"
                      /\ Len(vsch) # FieldCount(vsch)
                      /\ vhdr' = [n |-> NRec, fc |-> Len(vsch), rs |-> RecordSize(vsch), sb |-> BlockSize(vblock, vlen)]
@@ -148,7 +151,7 @@ KeyColumn == [dri \in 1..NRec |-> vrecs[dri][vkey][1]]
 K_Build == /\ vpc = "keys" /\ vpc' = "done" /\ vkey # 0
            /\ vkmap' = [hash |-> [dk \in Range(KeyColumn) |-> HashLookup(KeyColumn, dk)], sorted |-> SortedIndex(KeyColumn)]
            /\ UNCHANGED <<vsch, vkey, vrecs, vlen, vhdr, vout, vblock, vrefs, vdev, vread>>
-\* named deviation: RecordSet::new and create_sorted_key_map only match Value::UInt32
+\* named deviation (before a6663f8): RecordSet::new and create_sorted_key_map only match Value::UInt32
 K_BuildIgnoringInt32 == /\ vpc = "keys" /\ vpc' = "done" /\ vkey # 0 /\ vsch[vkey].ty = "Int32"
                         /\ vkmap' = [hash |-> <<>>, sorted |-> <<>>]
                         /\ vdev' = vdev \cup {"int32-key-ignored"}
